@@ -2,7 +2,10 @@
 """print the prompt given to a seeding sub-agent for property <id> (only the property text + a scratch worktree)."""
 import json, sys
 pid = sys.argv[1]
-wt = f"/tmp/seed_{pid}"
+wave = sys.argv[2] if len(sys.argv) > 2 else "1"
+wt = f"/tmp/seed_{pid}" if wave == "1" else f"/tmp/seed{wave}_{pid}"
+NCH = "THREE" if wave == "1" else "TWO"
+KS = "1, 2, 3" if wave == "1" else "1, 2"
 for l in open("/verif/properties.jsonl"):
     p = json.loads(l)
     if p["id"] == pid:
@@ -22,15 +25,15 @@ The semantic property that must hold for this library:
   Quantified over: {p['quantifier']['text']}
   Relevant files: {', '.join(p['anchors'].get('files', []))}
 
-Your task: produce THREE independent, different changes to the library source (under {wt}/src/grid, not the tests) each of which BREAKS this property
+Your task: produce {NCH} independent, different changes to the library source (under {wt}/src/grid, not the tests) each of which BREAKS this property
 while the code still imports/compiles and the EXISTING test suite still passes unchanged. Each change should be realistic (the kind of slip a developer makes in a
 refactor or an "optimisation": off-by-one, wrong branch condition, a dropped copy, swapped argument, wrong constant for one parameter value, a stale cache ...)
 and must need something SPECIFIC to manifest - an unusual input or parameter value, a particular size/parity, a multi-step sequence of operations, a particular
 branch, or two cooperating sites that each look fine alone - NOT something that ordinary use or the existing tests would expose at once.
-Vary the three changes: different functions / mechanisms / clauses of the property where possible.
+Vary the changes: different functions / mechanisms / clauses of the property where possible.
 
-For each change k = 1, 2, 3 deliver, in the directory {wt}/out/ (create it):
-  - patch_k.diff : `git diff` of that change ALONE against the worktree's HEAD (apply with `git apply`); the three patches must be independent alternatives, each applying to a clean HEAD.
+For each change k = {KS} deliver, in the directory {wt}/out/ (create it):
+  - patch_k.diff : `git diff` of that change ALONE against the worktree's HEAD (apply with `git apply`); the patches must be independent alternatives, each applying to a clean HEAD.
   - demo_k.py    : a small self-contained script (run as `PYTHONPATH=<worktree>/src /venv/bin/python demo_k.py`) that exits 0 on the unmodified library and exits non-zero
                    (assertion failure with a clear message) when patch_k is applied. It must demonstrate a violation of the property as stated above (use only the public API
                    or the functions named in the property), not merely a difference from the old behaviour.
